@@ -563,6 +563,14 @@ func (c *IPAMController) onBlockUpdated(kvp model.KVPair) {
 	if b.Affinity != nil {
 		if after, ok := strings.CutPrefix(*b.Affinity, "host:"); ok {
 			n = after
+			if old, ok := c.nodesByBlock[blockCIDR]; ok && old != n {
+				// The block has moved to a different node without us seeing its affinity being
+				// removed in between; forget it under the old node.
+				delete(c.blocksByNode[old], blockCIDR)
+				if len(c.blocksByNode[old]) == 0 {
+					delete(c.blocksByNode, old)
+				}
+			}
 			c.nodesByBlock[blockCIDR] = n
 			if _, ok := c.blocksByNode[n]; !ok {
 				c.blocksByNode[n] = map[string]bool{}
